@@ -177,7 +177,17 @@ def oracle_c05(c):
     if op is None: return []
     coerced, bad = orc.coerce_variables_spec(sv, op, c.variables)
     if bad: return []
-    return root_arg_problems(c, sv, op, coerced)
+    pr = root_arg_problems(c, sv, op, coerced)
+    # fields below the root (often default-resolved: no call to look at): an argument failure must be reported for a field
+    # exactly when CoerceArgumentValues — the model's `coerceArguments`, proved typed / literal = variable — fails there
+    if c.mod and "fail" not in c.mod:
+        eng = sorted(json.dumps(e["path"]) for e in c.real["errors"] if str(e.get("message", "")).startswith("Argument <"))
+        mod = sorted(json.dumps(e["path"]) for e in c.mod["errors"] if str(e.get("kind", "")).startswith("argument:"))
+        if eng != mod and not pr:
+            only_e = [p for p in eng if p not in mod]; only_m = [p for p in mod if p not in eng]
+            if only_e: pr.append(f"argument failure reported at {only_e[:3]} although the arguments of that field coerce per the specification")
+            if only_m: pr.append(f"no argument failure reported at {only_m[:3]} although CoerceArgumentValues fails there")
+    return pr
 
 ORACLES = {"C01": oracle_c01, "C02": oracle_c02, "C03": oracle_c03, "C04": oracle_c04, "C05": oracle_c05}
 
